@@ -66,6 +66,7 @@ type Engine struct {
 	errflowOrder  []string
 	nonNilGlobals map[*ssa.Global]bool
 	nonNilComps   map[string]bool
+	initOnly      map[string][]string // struct component -> accessors of init-only fields (initonly.go)
 }
 
 // predApp: a spec predicate applied to state-dependent arguments
@@ -786,6 +787,23 @@ func (e *Engine) verifyFuncMode(fn *ssa.Function, ct *Contract, sweep bool, prop
 		}
 		fr.vals[fv] = sval{t: s}
 		x.paramEnv[fv.Name()] = TVal{T: s, Sort: e.so.sortOf(fv.Type()), Ty: fv.Type()}
+	}
+	// calls("<target>"): number of calls of <target> made so far by this activation (a private counter)
+	x.callCount = map[string]string{}
+	x.resultWant = map[string]bool{}
+	x.callResults = map[string]capturedCall{}
+	for _, txt := range ct.allClauseTexts() {
+		for _, m := range resultRe.FindAllStringSubmatch(txt, -1) {
+			x.resultWant[m[1]] = true
+		}
+		for _, m := range callsRe.FindAllStringSubmatch(txt, -1) {
+			if _, ok := x.callCount[m[1]]; !ok {
+				comp := "L_calls_" + sanitize(m[1])
+				e.so.addComp(comp, "Int")
+				x.callCount[m[1]] = comp
+				st0.m[comp] = x.define("calls0", "Int", "0")
+			}
+		}
 	}
 	x.assumeStateInvs(st0, "")
 	env := x.baseEnv(fr, st0, st0)
